@@ -173,17 +173,21 @@ fn sec_heads(s: &mut Sink, rng: &mut Rng, n: usize) {
             let i = rng.below(d.len() as u64) as usize;
             d[i] ^= 1 << rng.below(8);
         }
-        s.emit("headerok", format!("headerok {} {}", v, hex(&d)), format!("ok {}", fx::header_ok(&d, v) as u8));
-        let parsed = feoxdb::storage::format::get_format(v).parse_record(&d);
+        // (a decoder that panics on some bytes is an answer, with those bytes on the line - not the end of the run)
+        let hok = catch_unwind(AssertUnwindSafe(|| fx::header_ok(&d, v))).map(|b| format!("ok {}", b as u8)).unwrap_or_else(|_| "panic header_ok".to_string());
+        s.emit("headerok", format!("headerok {} {}", v, hex(&d)), hok);
+        let parsed = catch_unwind(AssertUnwindSafe(|| feoxdb::storage::format::get_format(v).parse_record(&d)));
         let pres = match parsed {
-            Some((k, vl, ts, e)) => format!("ok {}:{}:{}:{}", hex(&k), vl, ts, e),
-            None => "ok none".to_string(),
+            Ok(Some((k, vl, ts, e))) => format!("ok {}:{}:{}:{}", hex(&k), vl, ts, e),
+            Ok(None) => "ok none".to_string(),
+            Err(_) => "panic parse_record".to_string(),
         };
         s.emit("parse", format!("parse {} {}", v, hex(&d)), pres);
         let sector = rng.range(16, 100000);
         let mut st = d.clone();
-        fx::stamp_seq_token(&mut st, sector, v);
-        s.emit("stamp", format!("stamp {} {} {}", v, sector, hex(&d)), format!("ok {}", digest(&st)));
+        let stamped = catch_unwind(AssertUnwindSafe(|| { let mut x = d.clone(); fx::stamp_seq_token(&mut x, sector, v); x }));
+        if let Ok(x) = &stamped { st = x.clone(); }
+        s.emit("stamp", format!("stamp {} {} {}", v, sector, hex(&d)), if stamped.is_ok() { format!("ok {}", digest(&st)) } else { "panic stamp_seq_token".to_string() });
         // sector_holds_record against a record with matching / perturbed identity
         if d.len() >= 6 {
             let kl = u16::from_le_bytes([d[4], d[5]]) as usize;
